@@ -8,7 +8,7 @@ import re
 
 import sympy as sp
 
-from ..core import AnalysisError, call_name, unparse, walk_no_nested
+from ..core import inline_locals, AnalysisError, call_name, unparse, walk_no_nested
 from ..dsl import ELEM, EQ, LE, LT, Dsl
 from ..pattern import _parse, body_is, find, find_expr, has, has_expr, m_node
 from ..report import Ctx
@@ -29,7 +29,16 @@ def _same(a, b) -> bool:
     return d == 0
 
 
+#: obligations whose failure contradicts the property (rule, construct pattern, why); every other failure is 'not recognised'
+POSITIVE: list[tuple[str, str, str]] = [
+    ('C17.R1', r':constant$', 'a numerical constant is not the mathematical constant it stands for, at the precision it is printed with'),
+    ('C17.R5', r'^(distributions\.\w+|loglikelihoodregression)$', 'the formula translated from the source is not the textbook density / distribution'),
+    ('C17.R2', r'^boxcox:(regular|maclaurin|switch)$', 'a branch of the Box-Cox transform, translated from the source, is not (x^l - 1)/l, its Maclaurin polynomial, or the symmetric switch'),
+]
+
+
 def run(ctx: Ctx) -> None:
+    ctx.positive_table = list(POSITIVE)
     prog = ctx.prog
     ctx.rule('C17.R1', 'constants: the numeric literals standing for sqrt(2 pi) and (1/2) ln(2 pi) are correct to their printed precision')
     ctx.rule('C17.R2', 'Box-Cox: the regular branch is (x^l - 1)/l, the near-zero branch is the degree-3 Maclaurin polynomial of it in l, the switch is a symmetric interval around 0, x = 0 maps to 0')
@@ -144,7 +153,6 @@ return _R
     # positive part: the width against which the first segment is clipped
     bw = find(pv.node, "if thresholds[0] is None:\n    ___\nelse:\n    ___\n    _R = [bioMax(Numeric(0), bioMin(variable - thresholds[0], __W))]")
     if bw is not None:
-        from ..core import inline_locals
 
         from ..cfg import cfg_of as _cfg_of
 
@@ -198,11 +206,11 @@ return _T
     else:
         ctx.add('C17.R6', 'piecewise_function:segments', True, pfn, 'full segments contribute beta_i (t_i+1 - t_i), the last reached one beta_i times the remaining distance', 'segments')
         if b2 is not None:
-            c, a, bb = (unparse(b2[k][1]).replace(' ', '') for k in ('__C', '__A', '__B'))
+            c, a, bb = (unparse(inline_locals(pfn.node, b2[k][1])).replace(' ', '') for k in ('__C', '__A', '__B'))
             ok = (c, a, bb) == ('thresholds[0]isNone', 'x', 'x-thresholds[0]')
             rv = f'{a} if {c} else {bb}'
         else:
-            rv = unparse(b1['__INIT'][1]).replace(' ', '')
+            rv = unparse(inline_locals(pfn.node, b1['__INIT'][1])).replace(' ', '')
             ok = rv == 'x-(0ifthresholds[0]isNoneelsethresholds[0])'
         ctx.add('C17.R6', 'piecewise_function:first-segment', ok, pfn, 'the first segment is measured from the first threshold' if ok
                 else f'the remaining distance starts at {rv}: with a first threshold t0 != 0 the first segment must be x - t0 (as in piecewise_formula)', rv)
